@@ -194,6 +194,79 @@ def check_massless(case) -> Result:
     return r
 
 
+ADDUCT_VALUES = ['1', '1.5', '-2', '', '+', '-', '+2Na+,', '+Na+,,+H+', '+1+', ',', '+2', 'Foo', '+Foo+', '+H', 'H+,', '+Na+,1', '0',
+                 '+e', 'Na', '+2', '2+', '++', '+-Na+']
+MALFORMED_RULES = ['<Foo@P>', '<Oxidation@P>', '<@P>', '<15.99@P>', '<Foo@N-Term>', '<Foo@P,E>']
+
+
+def check_adduct(case) -> Result:
+    """whatever stands in the charge-adduct bracket: parse accepts or cleanly rejects it, and mass / composition / m/z of an accepted
+    string either work or raise a ValueError-family error - never an unrelated exception"""
+    import peptacular as pt
+    r = Result()
+    s = f"PEPTIDE/{case['charge']}[{case['value']}]"
+    r.nontrivial = True
+    r.classes = ['adduct-value']
+    ctx = dict(string=s)
+    try:
+        a = pt.parse(s)
+    except ValueError:
+        return r
+    except Exception as e:  # noqa
+        r.fail('parsing either returns an annotation or raises a ValueError', f'C09/adduct/parse-{type(e).__name__}', **ctx)
+        return r
+    for fn_name, fn in (('mass', lambda: pt.mass(a)), ('comp', lambda: pt.comp(a.copy())), ('mz', lambda: pt.mz(s)),
+                        ('mass-labelled', lambda: pt.mass('<13C>' + s))):
+        try:
+            fn()
+        except ValueError:
+            continue
+        except Exception as e:  # noqa
+            r.fail('asking for the mass or composition raises a ValueError-family error, not an unrelated exception',
+                   f'C09/adduct/{fn_name}-raises-{type(e).__name__}', error=str(e)[:100], **ctx)
+    return r
+
+
+def adduct_cases():
+    for v in ADDUCT_VALUES:
+        for z in (1, 2, -1):
+            yield {'value': v, 'charge': z}
+
+
+def check_malformed_rule(case) -> Result:
+    """a global rule without a bracketed modification: rejected at parse, or its mass / composition raises - never silently zero"""
+    import peptacular as pt
+    r = Result()
+    s = case['rule'] + 'PEPTIDE'
+    r.nontrivial = True
+    r.classes = ['malformed-global-rule']
+    ctx = dict(string=s)
+    try:
+        a = pt.parse(s)
+    except ValueError:
+        return r
+    base_m, base_c = pt.mass('PEPTIDE'), pt.comp('PEPTIDE')
+    for fn_name, fn, base in (('mass', lambda: pt.mass(a), base_m), ('comp', lambda: pt.comp(a.copy()), base_c),
+                              ('mass-labelled', lambda: pt.mass('<13C>' + s), pt.mass('<13C>PEPTIDE'))):
+        try:
+            got = fn()
+        except ValueError:
+            continue
+        except Exception as e:  # noqa
+            r.fail('asking for the mass or composition raises a ValueError-family error, not an unrelated exception',
+                   f'C09/malformed-rule/{fn_name}-raises-{type(e).__name__}', error=str(e)[:100], **ctx)
+            continue
+        same = (abs(got - base) < 1e-9) if isinstance(got, (int, float)) else (got == base)
+        if same:
+            r.fail('an unresolvable modification is not silently counted as zero', f'C09/malformed-rule/{fn_name}-silently-zero', **ctx)
+    return r
+
+
+def malformed_rule_cases():
+    for v in MALFORMED_RULES:
+        yield {'rule': v}
+
+
 def massless_cases():
     from pv import obo
     for db, ents, pfx in (('psimod', obo.psimod(), ('MOD:', 'M:')), ('xlmod', obo.xlmod(), ('XLMOD:', 'X:'))):
@@ -319,6 +392,10 @@ def parts(tier):
              space=f'{len(POSITIONS)} modification positions x {len(BAD_VALUES)} unresolvable or malformed values'),
         Part(name='massless-entries', kind='enum', check_case=check_massless, cases=massless_cases, exhaustive=True, shards=8, case_limit=30,
              space='every PSI-MOD / XLMOD entry without a tabulated mass or formula x {accession, prefixed name}, position rotating over 5 kinds'),
+        Part(name='adduct-values', kind='enum', check_case=check_adduct, cases=adduct_cases, exhaustive=True, shards=2, case_limit=30,
+             space=f'{len(ADDUCT_VALUES)} malformed or unusual charge-adduct values x charge in (1, 2, -1)'),
+        Part(name='malformed-global-rules', kind='enum', check_case=check_malformed_rule, cases=malformed_rule_cases, exhaustive=True,
+             shards=1, case_limit=30, space=f'{len(MALFORMED_RULES)} global rules without a bracketed modification'),
         Part(name='strings', kind='hyp', check_case=check_string, strategy=string_strategy, examples=n, case_limit=30),
     ]
     if tier == 'thorough':
